@@ -1,7 +1,7 @@
 use crate::packets::{PingReq, PubAck, PubComp, PubRec, PubRel, PublishHeader};
 use crate::publication::ToPayload;
 use crate::ser::{MAX_FIXED_HEADER_SIZE, MqttSerializer};
-use crate::wire::ControlPacket;
+use crate::wire::{ControlPacket, MessageType};
 use crate::{Error, ProtocolError, PubError, ReasonCode, ResourceError, error, trace};
 use heapless::Vec;
 
@@ -223,12 +223,22 @@ impl<'a> Outbound<'a> {
         })
     }
 
-    pub(super) fn ack_packet(&mut self, packet_id: u16) -> bool {
-        let Some(position) = self
-            .retained
-            .iter()
-            .position(|entry| entry.packet_id == packet_id)
-        else {
+    /// Drop the retained packet `packet_id` if `ack` is the packet type that acknowledges it:
+    /// PUBACK a QoS 1 PUBLISH, PUBREC a QoS 2 PUBLISH, SUBACK a SUBSCRIBE, UNSUBACK an
+    /// UNSUBSCRIBE. Anything else is a stale acknowledgement.
+    pub(super) fn ack_packet(&mut self, packet_id: u16, ack: MessageType) -> bool {
+        let Some(position) = self.retained.iter().position(|entry| {
+            let first = self.buf[entry.offset];
+            let (packet_type, qos) = (first >> 4, (first >> 1) & 0b11);
+            entry.packet_id == packet_id
+                && match ack {
+                    MessageType::PubAck => packet_type == MessageType::Publish as u8 && qos == 1,
+                    MessageType::PubRec => packet_type == MessageType::Publish as u8 && qos == 2,
+                    MessageType::SubAck => packet_type == MessageType::Subscribe as u8,
+                    MessageType::UnsubAck => packet_type == MessageType::Unsubscribe as u8,
+                    _ => false,
+                }
+        }) else {
             return false;
         };
         self.retained.remove(position);
